@@ -16,6 +16,8 @@ pub struct ReqPlan {
     pub has_body: bool,
     pub chunks: Option<Vec<usize>>,
     pub tok: String,
+    /// the headers declare a body (Content-Length given by the plan) that is never sent: only the head goes out
+    pub declared_only: bool,
 }
 
 #[derive(Clone, Debug)]
@@ -229,6 +231,7 @@ pub fn req_from_json(v: &Value) -> ReqPlan {
         has_body,
         chunks: v["chunks"].as_array().map(|a| a.iter().map(|x| x.as_u64().unwrap_or(1) as usize).collect()),
         tok: v["tok"].as_str().unwrap_or("").to_string(),
+        declared_only: v["declared_only"].as_bool().unwrap_or(false),
     }
 }
 
